@@ -25,6 +25,14 @@ type editor struct {
 }
 
 func (e editor) edit(from *Selection, to *Selection, s editStrategy) (err error) {
+	if from.Constraints != nil {
+		// the limit is on the nodes of one read, a selection can be read again
+		for _, e := range from.Constraints.entries {
+			if limit, counting := e.constraint.(*MaxNode); counting {
+				limit.Count = 0
+			}
+		}
+	}
 	if err := e.enter(from, to, false, s, true, true); err != nil {
 		return err
 	}
